@@ -1,7 +1,7 @@
 //! C16 — recovery returns exactly the acknowledged persisted state (DESIGN §C16).
 //!
 //! Every history over {create node, create edge, delete node, delete edge, update node
-//! properties, update edge properties} x 2 ids, of length <= 2 (quick) / <= 3 (thorough), is run
+//! properties, update edge properties} on 1 id, length <= 2 (quick) / 2 ids, length <= 3 (thorough), is run
 //! by a worker child process on a real `PersistenceManager` (RocksDB + WAL directory). The child
 //! dies (`_exit`, no destructors, user-space buffers lost) at every armed hook point inside
 //! `persist_*`, once more right after every acknowledged operation, and once not at all (clean
@@ -388,7 +388,9 @@ fn main() {
             return;
         }
         let maxlen = ctx.tier.pick(2, 3);
-        let alpha = alphabet();
+        // quick: one id (6 operations); thorough: two ids (12 operations). Every case costs two
+        // RocksDB open/close cycles, which dominate the run time.
+        let alpha: Vec<Op> = if ctx.quick() { alphabet().into_iter().take(6).collect() } else { alphabet() };
         let hists: Vec<Vec<Op>> = odometer::sequences_upto(alpha.len(), maxlen).map(|s| s.iter().map(|&i| alpha[i]).collect()).collect();
         println!("{} histories of length <= {maxlen} over {} operations", hists.len(), alpha.len());
         // phase 1: clean runs (also yields each history's hook-point list)
